@@ -1,4 +1,4 @@
-CONSTANT Mechanism = "native"
+CONSTANT Mechanism = "index"
 INIT InitX
 NEXT Next
 CONSTRAINT Collect
